@@ -154,3 +154,43 @@ PROPS["C10"] = {
         },
     ],
 }
+
+APD_ASSUMPTIONS = [
+    "github.com/cockroachdb/apd/v3 is replaced by the decimal contract model of harness/lib/apdmodel.go.tmpl (value = (-1)^Negative * Coeff * 10^Exponent, Coeff a mathematical integer; half-up rounding to the precision read from /repo's BaseContext); the model is validated on every run against the real apd over a 5590-line operand grid, natively and through the executor",
+    "operands are finite decimals with concrete sign and exponent per path (both enumerated) and an arbitrary coefficient within the stated digit bound",
+]
+
+PROPS["C03"] = {
+    "level": "model_checking",
+    "claim": "Bounded symbolic model checking of the real adt.SimplifyBounds, BoundValue.validate/validateStr/validateInt/Kind, BinOp comparison arms and cmpTonode against a set-theoretic oracle written in the harness: whatever SimplifyBounds returns (one operand, bottom, or 'keep both') denotes exactly the intersection of the two bounds on every atom of the node's kind; validate accepts exactly the atoms of the bound's kind class that compare accordingly; the fast paths agree. One genuine defect (negative zero bound) was found and repaired (fix: commit).",
+    "note": "Trusted: go/ssa, the executor, z3, the decimal contract model (validated against real apd on every run). Outside: how conjuncts reach the accumulator (scheduler, references, disjunctions), structs/lists, regexp bounds (=~, !~), coefficients beyond the digit bound, exponents beyond the bound, strings longer than the bound.",
+    "technique": "bounded symbolic execution of adt.SimplifyBounds / BoundValue.validate / BinOp from go/ssa over symbolic decimals (mathematical-integer coefficients) and symbolic-byte strings; exactness asserted pointwise for an arbitrary probe atom and decided by z3 (linear integer arithmetic + bit-vectors)",
+    "bounds": {
+        "quick": "numeric bounds: every pair of ops in {<,<=,>,>=,!=,==}, node kind in {int,float,number}, operands int or float with |coefficient| < 10^3 and exponent in [-1,1], probe |value| < 10^5 with <= 1 decimal place; string/bytes bounds: operands <= 2 bytes, probe <= 3 bytes; validate: atoms null/bool/number/string/bytes within the same bounds",
+        "thorough": "coefficients < 10^6, exponents in [-2,2]; strings <= 3 bytes",
+    },
+    "outside": ["regexp bounds", "insertValueConjunct accumulation (A03.3) and predeclared ranges (A03.4) are not yet encoded", "NaN/Infinity"],
+    "assumptions": APD_ASSUMPTIONS,
+    "validate": [{"kind": "apdgrid"}],
+    "runs": [
+        {
+            "pkg": "./internal/core/adt",
+            "harness": ["adt/common.go", "adt/bounds.go", "adt/validate.go"],
+            "apdmodel": True,
+            "entries": {
+                "quick": [
+                    {"name": "verifHarnessSimplifyBoundsNum", "params": {"DIGITS": 3, "EXP": 1}},
+                    {"name": "verifHarnessSimplifyBoundsStr", "params": {"STRLEN": 2}},
+                    {"name": "verifHarnessBoundValidate", "params": {"DIGITS": 3, "EXP": 1, "STRLEN": 2}},
+                    {"name": "verifHarnessBoundValidateInt", "params": {"DIGITS": 3, "EXP": 1}},
+                ],
+                "thorough": [
+                    {"name": "verifHarnessSimplifyBoundsNum", "params": {"DIGITS": 6, "EXP": 2}},
+                    {"name": "verifHarnessSimplifyBoundsStr", "params": {"STRLEN": 3}},
+                    {"name": "verifHarnessBoundValidate", "params": {"DIGITS": 6, "EXP": 2, "STRLEN": 3}},
+                    {"name": "verifHarnessBoundValidateInt", "params": {"DIGITS": 6, "EXP": 2}},
+                ],
+            },
+        },
+    ],
+}
